@@ -20,3 +20,21 @@ Proof.
   intros env H. apply ok_and_known_split.
   exact (all_envs_sound gen_natoms gen_must ok_and_known gen_assembly gen_all_envs env H).
 Qed.
+
+(* nothing serves http.DefaultServeMux (census of the translator) *)
+Lemma gen_default_mux_not_served : gen_default_mux_served = false.
+Proof. reflexivity. Qed.
+
+(* login set, password EMPTY (Mode "all", CORS off): main() installs no BasicAuth at all -- some reachable route is
+   served to anybody.  The premise of C20 ("a login and a password are configured") is not met in that configuration. *)
+Lemma gen_open_without_password :
+  let env := env_of_list gen_open_witness in
+  env gen_login_atom = true /\ env gen_pass_atom = false /\
+  exists rt, In rt (reachable_routes (active env gen_assembly)) /\
+    forall ce login pass other h q,
+      p_status (serve ce login pass other h (chain (active env gen_assembly) (rt_router rt)) q) = h q /\
+      In EvHandler (p_trace (serve ce login pass other h (chain (active env gen_assembly) (rt_router rt)) q)).
+Proof.
+  cbv zeta. split; [reflexivity|]. split; [reflexivity|].
+  apply open_check_sound. vm_compute. reflexivity.
+Qed.
